@@ -1,7 +1,7 @@
 (* Exec/HistExec.v — correspondence checkers for histories: deliver changes to
    the model document exactly as they were delivered to the implementation
    and compare status, heads, missing dependencies and the full observation. *)
-From AM Require Import Base.Prelude Base.Order Crdt.Types Crdt.Interp Crdt.Doc.
+From AM Require Import Base.Prelude Base.Order Crdt.Types Crdt.Interp Crdt.Doc Crdt.Commit.
 Local Open Scope N_scope.
 
 Definition nth_change (u : list change) (i : N) : list change :=
@@ -58,3 +58,14 @@ Definition obs_at (appl : list change) (hs : list N) : obs :=
 
 Definition chk_obs_at (u : list change) (hs : list N) (o : obs) : bool :=
   obs_eqb (obs_at u hs) o.
+
+(* a local commit on a document holding [appl] (topological order) and the held changes [q]:
+   the implementation's get_missing_deps([]) afterwards, and the (actor, seq) of the change it made *)
+Definition chk_commit_prune (appl q : list change) (a : actor) (newhash : N) (seq : N) (missing_after : list N) : bool :=
+  let m := mkM (mkDoc appl q) (heads_of appl) in
+  match m_commit m (mkReq a None [] true newhash) with
+  | Ok (m', Some c) =>
+      (ch_seq c =? seq) && nlist_eqb (ch_actor c) a
+      && nlist_eqb (missing_deps (m_doc m') []) missing_after
+  | _ => false
+  end.
